@@ -1,10 +1,10 @@
 (* Proofs about NV.Bcf.Lazy, part 6: the walk over the samples block, and LAZY = EAGER for the whole
    record: whenever the eager read_record_buf (NV.Bcf.RecordTyped.dec_record_typed) accepts a record,
-   outside the decidable class [lazy_agree] = false, read_record followed by
-   RecordBuf::try_from_variant_record (NV.Bcf.Lazy.lazy_read) accepts it too and builds the same
-   RecordBuf up to [trec_norm]. *)
+   read_record followed by RecordBuf::try_from_variant_record (NV.Bcf.Lazy.lazy_read) accepts it too
+   and builds the same RecordBuf up to [trec_norm].  The only condition, [lazy_agree], says that the
+   Characters of the record are ASCII (the eager MODEL takes a Character to be one byte; the two
+   readers themselves agree on every character). *)
 From Coq Require Import ZArith NArith List Bool Lia ZifyBool ZifyNat ZifyN.
-From NV Require Import Base.Percent.
 From NV Require Import Bcf.Ints Bcf.IntsProofs Bcf.Typed Bcf.Strings Bcf.StringsProofs Bcf.Genotype Bcf.StringMap
   Bcf.StringMapProofs Bcf.Record Bcf.RecordTyped Bcf.NeverPanics Bcf.Lazy Bcf.LazyProofs Bcf.LazySiteProofs
   Bcf.LazyInfoProofs Bcf.LazyFmtProofs Bcf.LazyColProofs.
@@ -60,11 +60,10 @@ Lemma series_walk : forall strings ns nf bs fmts r, byte_list bs ->
   dec_fields_k strings ns false nf bs = Some (fmts, r) ->
   Forall (fun kv => forall c l p, read_type (snd kv) = Some (c, l, p) -> c <> 0) fmts ->
   exists ss, lz_validate ns nf bs = true /\ Forall2 (series_of strings) fmts ss /\
-    (r = [] -> forall fuel, (length bs <= fuel)%nat -> lz_all_series fuel ns bs = Some ss).
+    lz_n_series ns nf bs = Some ss.
 Proof.
   intros strings ns. induction nf as [|nf IH]; intros bs fmts r Hb H Hc; cbn [dec_fields_k] in H.
-  - injection H as Hf Hr. subst fmts r. exists []. split; [reflexivity|]. split; [constructor|].
-    intros Hbs fuel _. subst bs. destruct fuel; reflexivity.
+  - injection H as Hf Hr. subst fmts r. exists []. split; [reflexivity|]. split; [constructor|reflexivity].
   - destruct (dec_index bs) as [[i r0]|] eqn:E0; [|discriminate].
     destruct (get_index strings (znat (length (entries strings)) i)) as [k|] eqn:E1; [|discriminate].
     match type of H with match split_typed ?s _ _ with _ => _ end = _ =>
@@ -94,10 +93,7 @@ Proof.
     split.
     + constructor; [|exact Hf2]. unfold series_of. cbn [mk_series se_id se_code se_len se_pay fst snd].
       split; [exact E1|]. split; [exact Hrv|exact Hbp].
-    + intros Hr fuel Hfuel. destruct bs as [|b0 bs0]; [cbn [length] in Hlen0; lia|].
-      destruct fuel as [|f]; [cbn [length] in Hfuel; lia|].
-      cbn [lz_all_series]. rewrite Hser. rewrite (Hall Hr f); [reflexivity|].
-      assert (length r1 <= length r0)%nat by (rewrite Hr0, !app_length; lia). lia.
+    + cbn [lz_n_series]. rewrite Hser. rewrite Hall. reflexivity.
 Qed.
 
 Lemma eager_column_code : forall fk ns k vb col c l p,
@@ -136,7 +132,7 @@ Qed.
 Lemma columns_agree : forall v44 strings fk ns fmts ss cols,
   Forall2 (series_of strings) fmts ss ->
   Forall2 (fun kv col => eager_column fk ns kv = ROk col) fmts cols ->
-  forallb (fmt_plain fk ns) fmts = true ->
+  forallb (fmt_ascii fk ns) fmts = true ->
   exists lcols, lz_columns v44 fk ns (map fst fmts) ss = ROk lcols /\
     map (map (cell_norm v44)) lcols = map (map (cell_norm v44)) cols.
 Proof.
@@ -189,24 +185,16 @@ Proof.
 Qed.
 
 (* ---------------------------------------------------------------- the class, and the theorem *)
-(* lazy-samples-block-trailing-bytes: the samples block holds more than its n_fmt series *)
-Definition fmt_block_exact (strings : smap) (ns nf : nat) (ib : list N) : bool :=
-  match dec_fields_k strings ns false nf ib with
-  | Some (_, []) => true
-  | Some (_, _ :: _) => false
-  | None => true
-  end.
-
-(* the inputs on which the lazy path and the eager path agree (when the eager one accepts) *)
+(* the inputs on which the lazy MODEL and the eager MODEL agree when the eager one accepts: the INFO
+   Character arrays are ASCII text, and every per-sample Character (every element of a per-sample
+   Character array) starts with an ASCII byte.  Nothing else is excluded: the seven classes on which the
+   lazy accessors differed from read_record_buf are gone with the repairs. *)
 Definition lazy_agree (strings contigs : smap) (ik : name -> option ikind) (fk : name -> option fkind)
   (hs : Z) (bs : list N) : bool :=
-  match dec_frame bs, dec_record_k strings contigs hs bs with
-  | Some (sb, ib, _), Some (h, infos, fmts, _) =>
-    site_alleles_nonempty sb
-    && forallb (info_plain ik) infos
-    && forallb (fmt_plain fk (Z.to_nat (h_n_sample h))) fmts
-    && fmt_block_exact strings (Z.to_nat (h_n_sample h)) (Z.to_nat (h_n_fmt h)) ib
-  | _, _ => true
+  match dec_record_k strings contigs hs bs with
+  | Some (h, infos, fmts, _) =>
+    forallb (info_ascii ik) infos && forallb (fmt_ascii fk (Z.to_nat (h_n_sample h))) fmts
+  | None => true
   end.
 
 Theorem lazy_eq_eager : forall v44 strings contigs ik fk hs bs t,
@@ -226,15 +214,13 @@ Proof.
   destruct (dec_fields_k strings 1 true (Z.to_nat (h_n_info h')) info_bytes) as [[infos' r1]|] eqn:Ei; [|discriminate].
   destruct (dec_fields_k strings (Z.to_nat (h_n_sample h')) false (Z.to_nat (h_n_fmt h')) ib) as [[fmts' r2]|] eqn:Efm; [|discriminate].
   injection Erk' as Hh Hi Hfm Hr. subst h' infos' fmts' rest'.
-  apply andb_prop in Hag. destruct Hag as [Hag Hex]. apply andb_prop in Hag. destruct Hag as [Hag Hfp].
-  apply andb_prop in Hag. destruct Hag as [Hne Hip].
-  unfold fmt_block_exact in Hex. rewrite Efm in Hex. destruct r2 as [|? ?]; [|discriminate].
+  apply andb_prop in Hag. destruct Hag as [Hip Hfp].
   cbv zeta in H.
   match type of H with rbind ?m _ = _ => destruct m as [ivs| |] eqn:Em1; try discriminate end. cbn [rbind] in H.
   match type of H with rbind ?m _ = _ => destruct m as [cols| |] eqn:Em2; try discriminate end. cbn [rbind] in H.
   injection H as Ht.
   (* site *)
-  destruct (site_agree strings contigs sb h info_bytes Hbs Eh Hne) as [bd Hsv].
+  destruct (site_agree strings contigs sb h info_bytes Hbs Eh) as [bd Hsv].
   (* INFO *)
   destruct (info_fields_agree strings ik _ _ _ _ _ Ei Em1 Hip) as [Hlif [Hkeys Hdist]].
   (* samples *)
@@ -243,8 +229,7 @@ Proof.
   assert (Forall (fun kv : name * list N => forall c l p, read_type (snd kv) = Some (c, l, p) -> c <> 0) fmts) as Hcode.
   { clear -Hcols. induction Hcols as [|kv col fmts cols Hc Hcs IH]; constructor; [|exact IH].
     intros c l p Hr. destruct kv as [k vb]. apply (eager_column_code fk ns k vb col c l p); [exact Hc|exact Hr]. }
-  destruct (series_walk strings ns _ ib fmts [] Hbi Efm Hcode) as [ss [Hval [Hf2 Hall]]].
-  specialize (Hall eq_refl (length ib) (le_n _)).
+  destruct (series_walk strings ns _ ib fmts r2 Hbi Efm Hcode) as [ss [Hval [Hf2 Hall]]].
   destruct (columns_agree v44 strings fk ns fmts ss cols Hf2 Hcols Hfp) as [lcols [Hlc Hnc]].
   (* assemble *)
   eexists. split.
@@ -263,6 +248,33 @@ Proof.
     f_equal. rewrite !rows_norm. rewrite Hnc. reflexivity.
 Qed.
 
+(* under a header without Character arrays in INFO and without Character FORMAT keys the condition
+   holds by itself: the theorem is then unconditional (but for the bytes being bytes) *)
+Definition no_character_keys (ik : name -> option ikind) (fk : name -> option fkind) : Prop :=
+  (forall k, ik k <> Some (KChar true)) /\ (forall k b, fk k <> Some (FChar b)).
+
+Lemma lazy_agree_without_characters : forall strings contigs ik fk hs bs,
+  no_character_keys ik fk -> lazy_agree strings contigs ik fk hs bs = true.
+Proof.
+  intros strings contigs ik fk hs bs [Hi Hf]. unfold lazy_agree.
+  destruct (dec_record_k strings contigs hs bs) as [[[[h infos] fmts] rest]|]; [|reflexivity].
+  apply andb_true_intro. split; apply forallb_forall; intros kv _.
+  - unfold info_ascii. destruct (ik (fst kv)) as [[a|a| |[|]|a]|] eqn:E; try reflexivity.
+    exfalso. exact (Hi _ E).
+  - unfold fmt_ascii. destruct (read_type (snd kv)) as [[[c l] p]|]; [|reflexivity]. cbv zeta.
+    destruct (name_eqb (fst kv) GT); [reflexivity|].
+    destruct (fk (fst kv)) as [[b|b|b|b]|] eqn:E; try reflexivity; exfalso; exact (Hf _ _ E).
+Qed.
+
+Corollary lazy_eq_eager_without_characters : forall v44 strings contigs ik fk hs bs t,
+  no_character_keys ik fk -> byte_list bs ->
+  dec_record_typed strings contigs ik fk hs bs = ROk t ->
+  exists t', lazy_read v44 strings contigs ik fk bs = ROk t' /\ trec_norm v44 t' = trec_norm v44 t.
+Proof.
+  intros v44 strings contigs ik fk hs bs t Hn Hb H.
+  apply (lazy_eq_eager v44 strings contigs ik fk hs bs t Hb H). apply lazy_agree_without_characters. exact Hn.
+Qed.
+
 (* totality once more, as a corollary in the shape of (b): on an accepted record of the class the lazy
    result is a value *)
 Corollary lazy_accepts_what_eager_accepts : forall v44 strings contigs ik fk hs bs t,
@@ -272,4 +284,17 @@ Corollary lazy_accepts_what_eager_accepts : forall v44 strings contigs ik fk hs 
 Proof.
   intros v44 strings contigs ik fk hs bs t Hb H Ha E.
   destruct (lazy_eq_eager v44 _ _ _ _ _ _ _ Hb H Ha) as [t' [Ht _]]. rewrite Ht in E. discriminate.
+Qed.
+
+(* agreement of the error cases, in the direction that holds: a record the lazy path REJECTS is rejected
+   by the eager reader too (the converse is false: see the lazy_accepts theorems of LazyClasses) *)
+Corollary lazy_rejects_eager_rejects : forall v44 strings contigs ik fk hs bs,
+  byte_list bs -> lazy_agree strings contigs ik fk hs bs = true ->
+  lazy_read v44 strings contigs ik fk bs = RErr ->
+  dec_record_typed strings contigs ik fk hs bs = RErr.
+Proof.
+  intros v44 strings contigs ik fk hs bs Hb Ha E.
+  destruct (dec_record_typed strings contigs ik fk hs bs) as [t| |] eqn:Ed; [|reflexivity|].
+  - exfalso. exact (lazy_accepts_what_eager_accepts v44 _ _ _ _ _ _ _ Hb Ed Ha E).
+  - exfalso. exact (dec_record_typed_np _ _ _ _ _ _ Ed).
 Qed.
